@@ -105,7 +105,12 @@ def gen(tier, rng, n_quick=1800):
                         f1 = [fi]
                     b.sid = f"c12_{k}"
                     k += 1
-                    scens.append(b.scen(hist=hist, pre=pre, f1=f1, fp=fp,
+                    # a fifth of the acquisitions are made by a thread that is already unwinding (inside a destructor run
+                    # by an unrelated panic): recovery code that consults thread::panicking() behaves differently there.
+                    # Not with Poisonable roots: a guard dropped normally in that context poisons, which the model has
+                    # no notion of (DESIGN 9)
+                    unw = [0] if rng.random() < 0.2 and "P(" not in b.desc[root] else []
+                    scens.append(b.scen(hist=hist, pre=pre, f1=f1, fp=fp, unw=unw,
                                         meta={"desc": b.desc[root], "mode": m, "flavour": fl, "fault": str(fi),
                                               "pre": bool(pre)}))
     if tier == "quick" and len(scens) > n_quick:
